@@ -36,9 +36,10 @@ type (
 	EIndex struct{ X, I Expr }
 	ESlice struct{ X, Lo, Hi Expr }
 	EQuant struct {
-		Forall bool
-		Vars   []QVar
-		Body   Expr
+		Forall   bool
+		Vars     []QVar
+		Body     Expr
+		Patterns [][]Expr // optional triggers: forall i int :: {t1, t2} {t3} body
 	}
 	EOld  struct{ X Expr }
 	ELet  struct {
@@ -279,8 +280,21 @@ func (ps *parser) unary() Expr {
 			break
 		}
 		ps.expectOp("::")
+		var pats [][]Expr
+		for ps.isOp("{") {
+			ps.next()
+			var pat []Expr
+			for !ps.isOp("}") {
+				pat = append(pat, ps.expr(0))
+				if ps.isOp(",") {
+					ps.next()
+				}
+			}
+			ps.expectOp("}")
+			pats = append(pats, pat)
+		}
 		body := ps.expr(0)
-		return EQuant{t.s == "forall", vars, body}
+		return EQuant{t.s == "forall", vars, body, pats}
 	}
 	if t.kind == "id" && t.s == "let" {
 		ps.next()
